@@ -19,6 +19,24 @@ def _dreye():
     return dreye
 
 
+def _batch_independent(query, B, out, sv):
+    """the decision for a target does not depend on the other targets of the call: the same rows together with a very bright
+    target (1e7 times the largest entry) and a copy of the first row"""
+    big = np.full((1, B.shape[1]), 1e7 * max(float(np.max(np.abs(B))), 1e-300))
+    with calling("membership (same targets in a call with a very bright one)"):
+        aug = np.asarray(query(np.vstack([B, big, B[:1]])))
+    check(aug.shape == (B.shape[0] + 2,), "membership:depends-on-other-targets", f"{aug.shape} decisions for {B.shape[0] + 2} targets")
+    # only targets clearly inside or clearly outside decide (a target on the boundary may fall either way, e.g. with the start of qhull's walk)
+    for i in list(range(B.shape[0])) + [-1]:
+        b = B[i if i >= 0 else 0]
+        d, _ = lp_dist(sv.Ap, sv.basep, sv.lb, sv.ub, b)
+        t = lp_margin(sv.Ap, sv.basep, sv.lb, sv.ub, b) if sv.bounded and sv.n >= sv.m else None
+        ext = max(sv.extent, float(np.max(np.abs(b - sv.basep))))
+        if d >= 1e-6 * ext or (t is not None and t >= 1e-5):
+            check(bool(aug[i if i >= 0 else B.shape[0] + 1]) == bool(out[i if i >= 0 else 0]), "membership:depends-on-other-targets",
+                  f"the decision for target {i if i >= 0 else 0} changes from {bool(out[i if i >= 0 else 0])} to {bool(aug[i if i >= 0 else B.shape[0] + 1])} when a bright target is added to the call")
+
+
 def _call_membership(sv: Sys, B, entry, relative=True):
     """returns the boolean decisions; entry in {'estimator', 'function'}.  The query is made twice, first on the first row alone:
     it must not change the caller's arrays or the estimator's registered state, so the second answer is the one of a fresh call."""
@@ -30,6 +48,8 @@ def _call_membership(sv: Sys, B, entry, relative=True):
                 first = np.asarray(est.in_hull(B[:1], relative=relative))
                 out = np.asarray(getattr(est, "in_gamut" if int(abs(float(np.sum(B))) * 1e6) % 2 else "in_hull")(B, relative=relative))
         check(bool(first[0]) == bool(out[0]), "membership:second-query-differs", "the same target gets another answer in a second query on the same estimator")
+        if relative:
+            _batch_independent(lambda BB: np.asarray(est.in_hull(BB, relative=relative)), B, out, sv)
         return out
     from dreye.api.convex import in_hull_from_A
 
@@ -39,6 +59,7 @@ def _call_membership(sv: Sys, B, entry, relative=True):
             first = np.asarray(in_hull_from_A(B[:1], sv.A, **kw))
             out = np.asarray(in_hull_from_A(B, sv.A, **kw))
     check(bool(first[0]) == bool(out[0]), "membership:second-query-differs", "the same target gets another answer when the same argument arrays are used again")
+    _batch_independent(lambda BB: np.asarray(in_hull_from_A(BB, sv.A, **sv.kwargs())), B, out, sv)
     return out
 
 
